@@ -17,6 +17,7 @@ package main
 import (
 	"fmt"
 	"go/types"
+	"os"
 	"strings"
 )
 
@@ -474,10 +475,16 @@ func (s *State) newObject(ex *Exec, hint string, typeID int) Term {
 	s.assume(Not(Eq(r, Null)))
 	s.assume(Not(Select(al, r)))
 	s.setH("alloc", Store(al, r, True))
+	// atype is an immutable ghost function Ref -> type id ("the type this address has once
+	// allocated"): allocation of a T picks a fresh address whose atype is T.
 	if typeID != 0 {
-		at := s.H(ex, "atype", ArrSort(SRef, SInt))
-		s.setH("atype", Store(at, r, IntC(int64(typeID))))
+		s.assume(Eq(atypeOf(ex.st, r), IntC(int64(typeID))))
 	}
+	// convention: every object allocated during the call under verification belongs to the
+	// ghost set T of the tree being operated on (inT is the set at exit, see DESIGN section 4.3)
+	s.assume(inTOf(ex.st, r))
+	// a freshly allocated object is not in the ghost set of pooled nodes
+	s.assume(Not(Select(s.H(ex, "pooled", ArrSort(SRef, SBool)), r)))
 	return r
 }
 
@@ -591,6 +598,9 @@ func (s *State) sel(arr, idx Term) Term {
 	// look through havocs whose frame leaves idx untouched
 	for idx.Sort == SRef {
 		fi := s.frames[arr.S]
+		if os.Getenv("GOVC_DEBUG_SEL") != "" && strings.Contains(arr.S, ".call!") {
+			fmt.Fprintf(os.Stderr, "sel: arr=%s idx=%s frame=%v existed=%v\n", arr.S, idx.S, fi != nil, fi != nil && s.existedAt(idx, fi))
+		}
 		if fi == nil || !s.existedAt(idx, fi) {
 			break
 		}
@@ -625,4 +635,62 @@ func (s *State) existedAt(idx Term, fi *frameInfo) bool {
 		return ok && !fi.entry && at < fi.serial
 	}
 	return entryTerm(idx.S) && s.neq[idx.S+"|null"]
+}
+
+// bytesTypeID: ghost allocation type of byte objects (slice backing arrays).
+const bytesTypeID = 1000
+
+func atypeOf(st *Symtab, r Term) Term {
+	st.Func("atype", []string{SRef}, SInt)
+	return App(SInt, "atype", r)
+}
+
+func inTOf(st *Symtab, r Term) Term {
+	st.Func("inT", []string{SRef}, SBool)
+	return App(SBool, "inT", r)
+}
+
+// touchedObjects: object terms at which the current heap may differ from the entry heap:
+// indices of stores in the heap terms and the exception lists of callee / loop frames.
+func (s *State) touchedObjects(ex *Exec) []string {
+	seen := map[string]bool{}
+	var out []string
+	add := func(t string) {
+		if t != "null" && t != "" && !seen[t] {
+			seen[t] = true
+			out = append(out, t)
+		}
+	}
+	var names []string
+	for h := range s.heap {
+		names = append(names, h)
+	}
+	sortStrings(names)
+	for _, h := range names {
+		srt := ex.heapSorts[h]
+		if srt == "" || indexSort(srt) != SRef || h == "alloc" || h == "pooled" {
+			continue
+		}
+		arr := s.heap[h]
+		for depth := 0; depth < 200; depth++ {
+			if strings.HasPrefix(arr.S, "(store ") {
+				a, i, _, ok := splitStore(arr.S)
+				if !ok {
+					break
+				}
+				add(i)
+				arr = Term{a, arr.Sort}
+				continue
+			}
+			if fi := s.frames[arr.S]; fi != nil {
+				for _, e := range fi.except {
+					add(e)
+				}
+				arr = fi.old
+				continue
+			}
+			break
+		}
+	}
+	return out
 }
